@@ -15,6 +15,7 @@ LEAN_MODULES = ["QExPy.Props.C16"]
 THEOREMS = ["QExPy.C16_argmax", "QExPy.C16_walk_spec", "QExPy.C16_walk_edges",
             "QExPy.C16_mode_result", "QExPy.C16_error_nonneg", "QExPy.C16_init_generated",
             "QExPy.C16_cache_coherent_step", "QExPy.C16_cache_coherent", "QExPy.C16_read_spec",
+            "QExPy.C16_read_after_history",
             "QExPy.C16_sim_changes_only", "QExPy.C16_new_sim_is_new", "QExPy.C16_mean_std_range",
             "QExPy.C16_custom"]
 RULE = ("(a) unit level: find_mode_and_uncertainty on synthetic count lists (length 100 and other "
